@@ -65,6 +65,7 @@ pub fn profile(name: &str) -> Profile {
         "crashw" => Profile { name: "crashw", crash_w_pct: 18, restart_pct: 2, multi_unit_pct: 1, alo_pct: 0, ops: (10, 45), ..base },
         "crashr" => Profile { name: "crashr", crash_r_pct: 22, restart_pct: 2, multi_unit_pct: 1, alo_pct: 40, peek_pct: 10, ops: (12, 50), ..base },
         "marksfree" => Profile { name: "marksfree", marks_pct: 100, topics: 6, ops: (120, 260), alo_pct: 0, ..base },
+        "twoinst" => Profile { name: "twoinst", reclaim_pct: 10, restart_pct: 2, ops: (50, 130), topics: 2, peek_pct: 15, multi_unit_pct: 0, alo_pct: 20, ..base },
         "crashbig" => Profile { name: "crashbig", crash_w_pct: 100, alo_pct: 0, mmap_pct: 25, ..base },
         "marks" => Profile { name: "marks", marks_pct: 45, restart_pct: 10, ops: (6, 30), ..base },
         _ => panic!("unknown profile {}", name),
@@ -420,6 +421,45 @@ pub fn gen_program(r: &mut Rng, g: &Geo, p: &Profile, backend: &str, seed_tag: u
             for _ in 0..3 { lines.push(format!("bread {} {} 1 -", st.name, u64::MAX)); }
         }
         lines.push(format!("count {}", st.name));
+    }
+    if p.name == "twoinst" {
+        // two instances in one process: every data operation is addressed to A or to B at random; both use the
+        // same topic names; B is opened right after A and reopened whenever A is
+        let mut out: Vec<String> = Vec::new();
+        for l in lines.iter() {
+            let kind = l.split_whitespace().next().unwrap_or("");
+            match kind {
+                "cfg" | "clock" | "reclaim" => out.push(l.clone()),
+                "open" => { out.push(l.clone()); out.push(format!("B {}", l)); }
+                "close" => { out.push(l.clone()); out.push(format!("B {}", l)); }
+                "restart" => out.push(l.clone()),
+                "trks" | "ls" => { out.push(l.clone()); out.push(format!("B {}", l)); }
+                _ => { if r.chance(50) { out.push(format!("B {}", l)); } else { out.push(l.clone()); } }
+            }
+        }
+        // the generator's bookkeeping above was per topic, not per instance: drain both instances completely
+        for inst in ["", "B "] {
+            for st in &topics {
+                for _ in 0..(st.log.len() / 2 + 4) { out.push(format!("{}bread {} {} 1 -", inst, st.name, u64::MAX)); }
+                out.push(format!("{}count {}", inst, st.name));
+            }
+        }
+        out.push("trks".into());
+        out.push("B trks".into());
+        out.push("reclaim".into());
+        out.push("ls".into());
+        out.push("B ls".into());
+        out.push("restart".into());
+        out.push(format!("clock {}", clock + 50_000));
+        out.push("open".into());
+        out.push("B open".into());
+        for inst in ["", "B "] {
+            for st in &topics {
+                out.push(format!("{}count {}", inst, st.name));
+                out.push(format!("{}bread {} {} 1 -", inst, st.name, u64::MAX));
+            }
+        }
+        return out;
     }
     if p.reclaim_pct > 0 {
         lines.push("trks".into());
